@@ -718,6 +718,8 @@ def run(prog, rep):
 NX = 'fim/graph/networkx_property_graph.py'
 GU = 'fim/graph/graph_util.py'
 MUTANTS = [
+    {'name': 'string-enumeration-without-label-markup', 'file': 'fim/graph/abc_property_graph.py', 'rule': 'R2',
+     'find': "        return GraphML.networkx_to_neo4j(graph_string)\n", 'replace': "        return graph_string\n"},
     {'name': 'read-format-dropped', 'file': NX, 'rule': 'R1', 'find': 'READ_FORMATS = ["json_nodelink", "graphml"]', 'replace': 'READ_FORMATS = ["graphml"]'},
     {'name': 'markup-step-dropped', 'file': NX, 'rule': 'R2', 'find': '                graph_string = GraphML.networkx_to_neo4j(graph_string)\n', 'replace': ''},
     {'name': 'node-markup-conditional-on-edge-key', 'file': GU, 'rule': 'R2',
